@@ -335,6 +335,7 @@ func runC16(e *Engine, r *Report) {
 	ruleDeferredErr(e, r, 2, "internal/server", "internal/fileutil", "internal/rsm", "")
 	ruleChunkFileSync(e, r)
 	ruleSnapshotWriterClose(e, r)
+	ruleSyncUnconditional(e, r)
 }
 
 // dependsOnGuard: some branch condition on the way to `in` depends on a pred value.
